@@ -85,7 +85,7 @@ def passive_hook(origin, target, params, state):
 class TraceRun:
     """One builder with a known start position; shapes are traced one after another."""
 
-    def __init__(self, start, mode, direction, resolution, dp=8, units=None, hook=False, transform=False):
+    def __init__(self, start, mode, direction, resolution, dp=8, units=None, hook=False, transform=False, unknown=False):
         self.st = Sut({"decimal_places": dp})
         g = self.st.g
         self.dp = dp
@@ -102,6 +102,12 @@ class TraceRun:
             g.transform.scale(2.0)
             g.transform.rotate(30.0, "z")
             g.move(x=start[0], y=start[1], z=start[2])
+        elif unknown:
+            # a fresh builder: no axis position is known yet (the builder treats unknown coordinates as 0, and so does the
+            # interpreter); `start` has to be the origin
+            assert tuple(start) == (0.0, 0.0, 0.0)
+            for ax in ("X", "Y", "Z"):          # the machine itself is at its origin; only the builder does not know it
+                self.machine.pos[ax], self.machine.known[ax] = 0.0, True
         else:
             g.set_axis(x=start[0], y=start[1], z=start[2])
         g.set_distance_mode(mode)
@@ -144,7 +150,9 @@ class TraceRun:
 
 
 def dist(a, b):
-    return math.sqrt(sum((a[i] - b[i]) ** 2 for i in range(len(a))))
+    if any((a[i] is None) != (b[i] is None) for i in range(len(a))):
+        return math.inf                 # known to one interpreter, unknown to the other
+    return math.sqrt(sum((a[i] - b[i]) ** 2 for i in range(len(a)) if a[i] is not None))
 
 
 def dist_xy(a, b):
